@@ -7,7 +7,7 @@
     RESP fake; spec/TraceDurable.tla explains the command journal + acknowledgement markers as a behaviour of
     Durable.tla and prints, per journal prefix, the `required` state.
  3. fault enumeration: a NEW broker is started on every journal prefix (quick: every prefix of 24 histories; thorough:
-    every prefix of 300 histories) and compared with `required`: start-up succeeds, sessions, subscriptions with
+    every prefix of 200 histories) and compared with `required`: start-up succeeds, sessions, subscriptions with
     options, redelivery on CONNECT with Clean Start 0, QoS2 identifiers awaiting PUBREL.
 
   ./check C09 quick|thorough          VERIF_SEED drives histories and (when sampling) the prefixes
@@ -100,7 +100,7 @@ def run(ctx):
     ctx.cov["design"] = design
 
     # ---- 2. histories on the real broker, journal validated by TraceDurable.tla
-    nh = 24 if quick else 300
+    nh = 24 if quick else 200
     hists = dl.gen_histories(rng, nh, "s%d_" % ctx.seed)
     by_id = {h["id"]: h for h in hists}
     recs, jp, rstats = dl.record(ctx, hists, par=8)
@@ -128,7 +128,8 @@ def run(ctx):
 
     # ---- 3. fault enumeration
     cases = dl.plan_prefixes(rng, recs, outs, None)
-    results, fstats = dl.restart(ctx, jp, cases, par=16)
+    # thorough: at most 120 restarts per second (sockets in TIME_WAIT on a shared machine)
+    results, fstats = dl.restart(ctx, jp, cases, par=16, rate=0 if quick else 120)
     trouble = [r for r in results if r.get("trouble")]
     if len(trouble) > max(3, len(results) // 100):
         raise vlib.MachineryError("%d of %d restarts gave no verdict, first: %s" % (len(trouble), len(results), trouble[0]["trouble"]))
